@@ -441,8 +441,9 @@ Proof. exact trace_calls_reference. Qed.
     encodings of a document that preserves argument lists, expected types and variable uses — item
     (c) "the document level" of [C05_C04_coercion_bridge_partial]; C04 and C05 only relate single
     literals ([BridgeC04.tr_lit]).  For object-free literals the [lit_nodup] part holds outright
-    ([obj_free_lit_nodup]).  The three request-side facts are checked on every case through the real
-    validator (std = 0) and the call-list comparison. *)
+    ([obj_free_lit_nodup]).  The request-side facts (the conclusions of the three implications, and the
+    schema-side hypotheses) are evaluated by the check on every case the REAL validator accepted
+    ([CostCheck.request_facts], mismatch validated-document-violates-theorem-hypotheses). *)
 Theorem C14_accepted_document_cost_calls_partial :
   forall (C : Type) E dt pi S F D (ops : list (aop C)) frs opname raw o skip_zero fuel dc ctx0 max,
   ProofsCommon.order_ok pi -> Hyps.schema_ok S = true ->
